@@ -22,7 +22,9 @@ TRUSTED_BASE = [
     "Lean runtime (Rat and Float instances) for executing the model",
     "scipy.optimize.brentq / interp1d(kind='linear'): the root of the linear interpolant is returned within 2e-12 + 4 eps |x|",
     "the Python harness: series generator, exact Fraction transport, guard band, oracle c12Holds",
+    "translator tools/gen_formulas.py: the arithmetic of the named source functions (an expression, or a whole body of assignments, if and return) as Python's own `ast` parses it -> Lean terms over the carrier class in lean/FormulaTie/Gen*.lean; that each is the model's definition is re-checked by `rfl` / a short unfolding on every run (lean/FormulaTie/*.lean)",
 ]
+FORMULA_TIE = ('Regrid',)
 ASSUMPTIONS = [
     "theorems are over Rat (exact arithmetic on the rational values of the float inputs); the set of reported levels "
     "is compared bit-exactly with the model at Float, and with the model at Rat whenever no sample's y/step lies within "
